@@ -32,7 +32,14 @@ from ..core import Report
 
 ASSUMPTIONS = [
     "usage as documented: a namespace class is associated with its render class before that "
-    "class is subclassed or any RenderArgs for it is created; field values are immutable ints",
+    "class is subclassed or any RenderArgs for it is created; field values are never mutated "
+    "(None, falsy values, values of another type that compare equal, and UNHASHABLE values - a "
+    "list / a dict - are all legal field values)",
+    "identity of the constituents is demanded where the statement gives it: a resulting set holds "
+    "the very namespace object given last for a class, else the very object the initial set holds; "
+    "default-valued constituents and namespaces made inside an operation are unconstrained",
+    "hash() of a namespace / set raises TypeError if and only if a field value is unhashable (both "
+    "__hash__ docstrings); every other operation treats such values like any other",
     "object identity is permitted nondeterminism: an operation may return a fresh object or an "
     "existing one whose (kind, class, values) equal the required result; values, acceptance and "
     "non-interference are compared strictly (identity agreement with the model is only counted)",
@@ -66,6 +73,9 @@ ACTIONS = [
     "Pos", "NsUpdate", "NsUpdateRejected", "ToRenderArgs", "ToRenderArgsRejected",
 ]
 MAX_VIOLATIONS = 40
+# operations that may be GIVEN the unhashable value as a keyword (MC_RenderArgs: UvalOps)
+UVAL_NEW = '{"NsNew"}'
+UVAL_ALL = '{"NsNew", "NsUpdate", "Update", "AllClasses"}'
 NQUICK = 6  # number of class trees in TreesQuick (one TLC partition each)
 OUT = tlc.OUT / "c16"
 
@@ -84,6 +94,7 @@ CONSTANTS
   MaxHeap = 6
   MaxNss = {maxnss}
   DumpEdges = {dump}
+  UvalOps = {uval}
 VIEW View
 ACTION_CONSTRAINT Dump
 INVARIANT StateDump
@@ -92,6 +103,7 @@ INVARIANT DefaultsPristine
 INVARIANT FoldAgrees
 INVARIANT ResultClass
 INVARIANT OperandsContained
+INVARIANT HeldIsGiven
 INVARIANT RejectionDocumented
 INVARIANT EqIsEquivalence
 INVARIANT EqualHashEqual
@@ -102,7 +114,8 @@ CHECK_DEADLOCK FALSE
 
 
 def run_mc(rep: Report, sel: str, maxops: int, nparts: int, dump: bool, coverage,
-           timeout: float, label: str, nsub: int = 1, maxnss: int = 2):
+           timeout: float, label: str, nsub: int = 1, maxnss: int = 2,
+           uval: str = '{"NsNew"}'):
     """Run MC_RenderArgs on `nparts` partitions of the tree set side by side (an edge dump
     needs one worker per JVM).  coverage: True = every partition runs with -coverage;
     "sample" = the partitions run without it and one extra JVM runs -coverage on TreesCover
@@ -114,13 +127,14 @@ def run_mc(rep: Report, sel: str, maxops: int, nparts: int, dump: bool, coverage
     for p in range(nparts * nsub):
         f = d / f"MC_{sel}_{p}.cfg"
         f.write_text(CFG.format(sel=sel, part=p // nsub, nparts=nparts, sub=p % nsub, nsub=nsub,
-                                maxops=maxops, maxnss=maxnss, dump="TRUE" if dump else "FALSE"))
+                                maxops=maxops, maxnss=maxnss, dump="TRUE" if dump else "FALSE",
+                                uval=uval))
         jobs.append(dict(spec="MC_RenderArgs", cfg=str(f), workers=1 if dump else 2, jvm=jvm,
                          timeout=timeout, coverage=coverage is True, deadlock=False))
     if coverage == "sample":
         f = d / "MC_cover.cfg"
         f.write_text(CFG.format(sel="cover", part=0, nparts=1, sub=0, nsub=1, maxops=maxops,
-                                maxnss=maxnss, dump="FALSE"))
+                                maxnss=maxnss, dump="FALSE", uval=uval))
         jobs.append(dict(spec="MC_RenderArgs", cfg=str(f), workers=1, jvm=jvm, timeout=timeout,
                          coverage=True, deadlock=False))
     try:
@@ -170,8 +184,9 @@ def tagged_lines(stdout: str, tag: str):
 # spec -> code: depth-first replay of the edge dump
 # ---------------------------------------------------------------------------------------
 class Fail(Exception):
-    def __init__(self, clause: str, detail: str):
-        self.clause, self.detail = clause, detail
+    def __init__(self, clause: str, detail: str, api: str | None = None):
+        # api: the API element at fault when it is not the last operation of the history
+        self.clause, self.detail, self.api = clause, detail, api
 
 
 def hkey(heap) -> str:
@@ -197,7 +212,7 @@ class Replayer:
 
     # one operation + every comparison for the state it leads to
     def step(self, tree: kit.Tree, objs: dict, extras: list, e: list):
-        _t, heap, _d, _n, op, rid, exc, _d2, add = e
+        _t, heap, _d, _n, op, rid, exc, _d2, add, hold = e
         name = op[0]
         r, got = tree.execute(objs, op)
         if exc:
@@ -225,6 +240,17 @@ class Replayer:
                 if heap[i - 1][:3] != want:
                     raise Fail("alias", f"{name}{op[1:]} returned the existing object #{i} "
                                         f"{heap[i - 1]} where {want} is required")
+            # identity of the CONSTITUENTS: the spec names, per class, the object the resulting
+            # set must hold (the namespace given last for it / the one the initial set holds)
+            if hold:
+                given = kit._Operands(tree, objs)
+                for k, tok in enumerate(hold, 1):
+                    if tok and r[tree.cls[k]] is not given[tok]:
+                        who = f"namespace #{tok}" if tok > 0 else f"the K{k} namespace held by set #{(-tok) // 16}"
+                        raise Fail("holds", f"{name}{op[1:]} returned a set whose K{k} namespace is not the "
+                                            f"object given ({who}) but another one: "
+                                            f"{tree.observe(r[tree.cls[k]])} {type(r[tree.cls[k]]).__name__}; "
+                                            f"identical to {tree.held(r, objs)[k - 1] or 'no live object'}")
             if (bool(alias) and not fresh and rid in alias) or (fresh and not alias):
                 self.ident_same += 1
             else:
@@ -253,12 +279,21 @@ class Replayer:
             raise tlc.MachineryError(f"no STATE line for heap {heap2} of tree {self.info}")
         live = [objs2[i] for i in range(1, len(heap2) + 1)]
         rel = kit.relations(tree, live)
+        if rel["err"]:
+            what = {"==": "eq", "in": "contains", "hash": "hash"}[rel["err"][0][0]]
+            raise Fail(f"{what}-raises", f"after {name}{op[1:]}: {rel['err'][0][0]} on objects "
+                                         f"{rel['err'][0][1:3]} of heap {heap2} raised {rel['err'][0][3]}; every "
+                                         "legal field value (hashable or not) must compare by value",
+                       api=rel["err"][0][4])
+        if sorted(rel["uh"]) != sorted(j["uh"]):
+            raise Fail("hashability", f"hash() raises TypeError for objects {sorted(rel['uh'])}; required "
+                                      f"{sorted(j['uh'])} (hashable iff every field value is) in heap {heap2}")
         if rel["asym"] or rel["nonrefl"]:
             raise Fail("eq-not-an-equivalence", f"== / != inconsistent on pairs {rel['asym']} {rel['nonrefl']}")
         if sorted(rel["eq"]) != sorted(j["eq"]):
             raise Fail("eq", f"== holds for pairs {sorted(rel['eq'])}; required {sorted(j['eq'])} in heap {heap2}")
         heq = {tuple(p) for p in rel["heq"]}
-        for p in j["eq"]:
+        for p in j["he"]:
             if tuple(p) not in heq:
                 raise Fail("hash-law", f"objects {p} of heap {heap2} are equal but hash differently")
         if rel["dmiss"]:
@@ -385,7 +420,7 @@ class Replayer:
         tree = {"par": self.par, "has": self.has}
         if iso:
             f = iso
-        sig = f"{API.get(name, name)}:{f.clause}"
+        sig = f"{f.api or API.get(name, name)}:{f.clause}"
         detail = (f"tree par={self.par} has={self.has} (class 0 = Renderable; K<c> has fields f1.."
                   f"f{{1,2}})\nhistory: {ops}\n{f.detail}")
         if iso:
@@ -422,6 +457,7 @@ class Recorder:
             if not rid:
                 self.live.append(r)
                 rid = len(self.live)
+        held = t.held(r, objs) if not exc else []
         rel = kit.relations(t, self.live)
         heap = []
         for x in self.live:
@@ -433,7 +469,9 @@ class Recorder:
             "exc": exc, "rid": rid, "heap": heap, "eq": rel["eq"], "heq": rel["heq"],
             "ct": rel["ct"], "gi": [t.getitems(x) for x in self.live],
             "bad": rel["asym"] + [[i, i] for i in rel["nonrefl"]],
-            "dmiss": rel["dmiss"],
+            "dmiss": rel["dmiss"], "held": held, "uh": rel["uh"],
+            "err": {"==": "eq", "in": "contains", "hash": "hash"}[rel["err"][0][0]] if rel["err"] else "",
+            "errapi": rel["err"][0][4] if rel["err"] else "",
         })
         return rid, exc
 
@@ -478,7 +516,8 @@ def random_history(choose, nmax: int, length: int, heap_cap: int = 9) -> dict:
         if choose(6) == 0:  # an unknown field now and then
             fields.append(kit.nf(c) + 1 if c in has else 3)
         picked = sorted({fields[choose(len(fields))] for _ in range(choose(len(fields) + 1))})
-        return [[f, choose(2)] for f in picked]
+        # now and then the unhashable value (a list / a dict): a legal field value
+        return [[f, kit.UVAL if choose(5) == 0 else choose(2)] for f in picked]
 
     for _ in range(length):
         ns = [i + 1 for i, x in enumerate(rec.live) if t.observe(x)[0] == "ns"]
@@ -514,7 +553,8 @@ def random_history(choose, nmax: int, length: int, heap_cap: int = 9) -> dict:
 
         if name == "NsNew":
             c = has[choose(len(has))]
-            op = ["NsNew", 0, 1 if choose(3) == 0 else 0, c, [], kw_for(c)]
+            # b: 1 = instance of a namespace SUBCLASS, 2 = values of another type that are ==
+            op = ["NsNew", 0, (1, 2, 0, 0)[choose(4)], c, [], kw_for(c)]
         elif name == "NsUpdate":
             a = ns[choose(len(ns))]
             op = ["NsUpdate", a, 0, 0, [], kw_for(cls_of(a))]
@@ -840,6 +880,7 @@ def _replay_part(args):
             rp = Replayer(rep, info, edges, judge, label)
             if canary and not out["canary"]:
                 canary_edge(rp, edges)
+                canary_hold(rp, edges)
                 out["canary"] = True
             rp.run(only_first)
             out["trees"] += 1
@@ -894,7 +935,8 @@ def replay_edges(rep: Report, results, label: str, only_tree=None, only_first=No
             if len(rep.violations) < MAX_VIOLATIONS:
                 rep.violation(sig, detail, scenario)
         if o["canary"]:
-            rep.extra["canary_edge"] = "a tampered edge (required value altered) is rejected"
+            rep.extra["canary_edge"] = ("a tampered edge (required value altered) is rejected; so is one whose "
+                                       "required holder is an equal but different namespace object")
         if o["sample"] and len(rep.samples) < 2:
             rep.sample(o["sample"])
     if canary and not rep.extra.get("canary_edge"):
@@ -906,6 +948,35 @@ def replay_edges(rep: Report, results, label: str, only_tree=None, only_first=No
         tot["edges_per_action"] = {a: acts[a] for a in ACTIONS}
     rep.traces_validated += tot["paths"] + tot["isolated_histories"]
     rep.extra.setdefault("replay", []).append(tot)
+
+
+def canary_hold(rp: Replayer, edges: list):
+    """The identity alarm must ring: `+ns#1` on a heap with two EQUAL namespaces, the required
+    holder altered to the other (equal) object, must be rejected with clause `holds`."""
+    for e in edges:
+        heap, op = e[1], e[4]
+        if (op[0] == "Pos" and op[1] == 1 and len(heap) == 2 and heap[0][0] == heap[1][0] == "ns"
+                and heap[0][:3] == heap[1][:3] and not e[6]):
+            tree = kit.Tree(rp.par, rp.has)
+            objs: dict = {}
+            for i, (_k, c, v, sb) in enumerate(heap, 1):
+                objs[i], exc = tree.execute(objs, ["NsNew", 0, sb, c, [], [[f, x] for f, x in enumerate(v, 1)]])
+                if exc:
+                    raise tlc.MachineryError(f"identity canary: cannot build {heap[i - 1]}: {exc}")
+            bad = json.loads(json.dumps(e))
+            bad[9][heap[0][1] - 1] = 2
+            try:
+                rp.step(tree, dict(objs), [], e)
+            except Fail as f:
+                return  # the genuine edge fails: the run reports it; nothing to prove here
+            try:
+                rp.step(tree, dict(objs), [], bad)
+            except Fail as f:
+                if f.clause == "holds":
+                    return
+            raise tlc.MachineryError("edge with a tampered holder (an equal but different namespace "
+                                     "object) was not rejected by the replay")
+    raise tlc.MachineryError("no `+ns` edge over two equal namespaces to tamper with")
 
 
 def canary_edge(rp: Replayer, edges: list):
@@ -963,7 +1034,8 @@ def main(rep: Report, replay: dict | None) -> None:
             sel, _, ops = sc["label"].partition("/")
             maxops = int(ops[:1] or 3)
             res = run_mc(rep, sel, maxops, 24 if sel == "thorough" else NQUICK, True, False, 900,
-                         sc["label"], nsub=4 if maxops > 3 else 1, maxnss=1 if maxops > 3 else 2)
+                         sc["label"], nsub=4 if maxops > 3 else 1, maxnss=1 if maxops > 3 else 2,
+                         uval=UVAL_ALL if "+uval" in sc["label"] else UVAL_NEW)
             replay_edges(rep, res, sc["label"], only_tree=sc["tree"], only_first=sc["first"])
         elif sc["kind"] == "data":
             case = sc["case"]
@@ -1008,6 +1080,13 @@ def main(rep: Report, replay: dict | None) -> None:
             replay_edges(rep, res4, "quick/4ops")
             t0 = _lap(rep, "replay quick/4ops", t0)
             del res4
+        if len(rep.violations) < MAX_VIOLATIONS:
+            # the unhashable value also given to ns.update / set.update(cls, ..) (quick: NsNew only)
+            resu = run_mc(rep, "quick", 3, NQUICK, True, False, 840, "quick/3ops+uval", uval=UVAL_ALL)
+            t0 = _lap(rep, "tlc quick/3ops+uval", t0)
+            replay_edges(rep, resu, "quick/3ops+uval")
+            t0 = _lap(rep, "replay quick/3ops+uval", t0)
+            del resu
         rep.exhaustive = True
         rep.extra["exhaustive_space"] = (
             "histories of 3 operations on every tree shape with <= 4 classes (depth <= 3, "
@@ -1057,7 +1136,7 @@ def judge_traces(rep: Report, traces, verdicts):
             name = ev["op"]["op"]
             ops = ops_of(tr)[: v["at"]]
             rep.violation(
-                f"{API.get(name, name)}:{clause}",
+                f"{(clause.endswith('-raises') and ev.get('errapi')) or API.get(name, name)}:{clause}",
                 f"tree par={tr['par']} has={tr['has']}\nhistory: {ops}\nTrace_RenderArgs: "
                 f"{v['verdict']} at event {v['at']}\nobserved: exc={ev['exc'][:1]} rid={ev['rid']} "
                 f"heap={[[h['k'], h['c'], h['v']] for h in ev['heap']]}",
